@@ -721,7 +721,9 @@ func (i *Interp) materialize(p *place) *Loc {
 		ploc = i.materialize(par)
 		// (the parent may have come into being since the place was resolved: the right-hand
 		// side of this very assignment can create it, as in o.a.b = o.a.c = 1)
-		if ploc.V.K != KObj && ploc.V.K != KArr {
+		// ... or put a scalar there (o.a.b = (o.a = 5)): nothing is created over it, the store
+		// below it fails like any store of a member on a scalar (C11)
+		if ploc.V.K == KNull {
 			if p.key.K == KNum {
 				i.set(ploc, V{K: KArr, A: &Arr{}})
 			} else {
